@@ -5,7 +5,7 @@ use crate::model::runs;
 use crate::props::c07;
 use crate::runner::{from_case, no_panic, CaseInfo, Check, Ctx, Fail, Report, Tier};
 use crate::wire::*;
-use crate::ensure_eq;
+use crate::{ensure, ensure_eq};
 use nexrad_data::result::Error as DataError;
 use nexrad_data::volume::File;
 use proptest::collection::vec;
@@ -106,12 +106,19 @@ pub fn check_volume(c: &VolumeCase) -> Check {
     let (bytes, radials, _) = build_file(c);
     // history: a failed conversion of a truncated copy on the same thread must not influence what follows
     if let Some(sel) = c.splits.first() {
-        let cut = 24 + (((*sel as usize) * bytes.len().saturating_sub(24)) >> 16);
+        // either a random cut, or a cut a few bytes before the end (all bzip2 blocks of the last record are
+        // decoded before its missing trailer is noticed)
+        let cut = if sel % 2 == 0 { 24 + (((*sel as usize) * bytes.len().saturating_sub(24)) >> 16) } else { bytes.len().saturating_sub(1 + (*sel as usize / 2) % 8) };
         let truncated = File::new(bytes[..cut.min(bytes.len())].to_vec());
         let _ = no_panic("File::scan", || truncated.scan().map(|_| ()))?;
     }
     let file = File::new(bytes);
     let scan = no_panic("File::scan", || file.scan())?;
+    // reuse: converting the same file object a second time must give the same scan
+    if let (Ok(first), Ok(Ok(second))) = (&scan, no_panic("File::scan", || file.scan())) {
+        ensure_eq!(first.coverage_pattern_number(), second.coverage_pattern_number(), "scan:second-conversion-differs");
+        ensure!(first.sweeps().len() == second.sweeps().len() && first.sweeps().iter().zip(second.sweeps().iter()).all(|(a, b)| a.elevation_number() == b.elevation_number() && a.radials().len() == b.radials().len()), "scan:second-conversion-differs", "scan() of the same File gave a different sweep structure the second time");
+    }
     let first_vcp = radials.iter().find_map(|r| r.vol.as_ref().map(|v| v.vcp));
     let scan = match (scan, first_vcp) {
         (Err(DataError::MissingCoveragePattern), None) => return Ok(()),
